@@ -249,6 +249,356 @@ fn run_child(kind: &str, depth: usize) -> String {
     }
 }
 
+// =====================================================================================================
+// BEGIN byte-level lexer correspondence (coq/Model/Lex.v) -- cases `CLex bytes observation`
+//
+// Every text of this section is shipped with its UTF-8 bytes and what the REAL lexer did with it
+// (hook `quil_rs::verif::lex_debug` under `qv::catch`): the complete token stream, the fact of a lex
+// error, or a panic.  In Coq `Lex.lex bytes` (the byte-level model of the whole lexer) is compared
+// with it: code 1 on any disagreement, code 2 if the real outcome is a panic, code 3 if the bytes
+// are not well-formed UTF-8 according to `Lex.valid_utf8`.
+// Mutants (QV_MUTANT): 6 = a tab is skipped as whitespace instead of producing INDENT; 7 = a
+// comment swallows the line feed that ends it; 8 = `surrounded` slices the string at the CHARACTER
+// index of the closing quote (`chars().enumerate()` instead of `char_indices()`), i.e. off a
+// character boundary when a multi-byte character precedes it -> panic.
+// =====================================================================================================
+mod lexsec {
+    use super::{Ctx, Rng};
+
+    /// 24 characters hitting every arm of `lex_token`: a 2-byte and a 3-byte UTF-8 character, quote,
+    /// backslash, hash, semicolon, LF, space, tab, the sigils, dash, point, underscore, digits,
+    /// letters (`e` = exponent marker, `x` = base prefix), opening bracket / parenthesis, colon,
+    /// comma, CR.
+    pub const LEX_ALPHA: [&str; 24] = [
+        "\u{e9}", "\u{65e5}", "\"", "\\", "#", ";", "\n", " ", "\t", "@", "%", "-", ".", "_", "0", "1", "a", "e",
+        "x", "[", "(", ":", ",", "\r",
+    ];
+
+    /// longer pieces for the sampled stream (4-space indentation, reserved words of every table,
+    /// number forms incl. the failure cases, strings with escapes, wide / odd characters)
+    const PIECES: [&str; 58] = [
+        "    ", "  ", "DEFGATE", "PAULI-SUM", "mut", "BIT", "DAGGER", "NONBLOCKING", "JUMP-WHEN", "AS", "as", "X",
+        "q-r", "a-", "--", "0x1F", "0X_a_", "0b", "0b101", "0o7", "0o8", "1.5e3", "1e", "1e+", "1E-2", "._", "1._1",
+        "0._", ".5", "1.", "2_", "18446744073709551615", "18446744073709551616", "1e400", "1e-400", "\"a\\\"b\"",
+        "\"\\\\\"", "\"", "\\", "# c", "#", "]", ")", "!", "+", "*", "/", "^", "\u{1F642}", "\u{2028}", "\u{212A}",
+        "K", "\u{130}", "\u{feff}", "\u{0}", "\u{a0}", "e\u{301}", "\u{df}",
+    ];
+
+    const RESERVED_EXTRA: [&str; 16] = [
+        "AS", "MATRIX", "mut", "NONBLOCKING", "OFFSET", "PAULI-SUM", "PERMUTATION", "SEQUENCE", "SHARING", "BIT",
+        "OCTET", "REAL", "INTEGER", "CONTROLLED", "DAGGER", "FORKED",
+    ];
+
+    const CORPUS: [&str; 72] = [
+        "", " ", "\t", "\n", "\r", "\r\n", "\n\r\n", "\r\r\n\n", "\n\n\n", ";;;", "    ", "     ", "        ", "   ",
+        "X    Y", "X     Y", "X \tY", "X\t\tY", "\t\tX", "X 0 # c", "    # c", "\t\t# c\nX 0", "# c\r\nX", "#", "#\n#",
+        "# \u{e9}\u{65e5}\n\"\u{e9}\"", "\"multi\nline\"", "\"unterminated", "\"a\\", "\"\\\"\"", "\"\\\\\\\"\"", "@", "%", "@a-",
+        "%a--b", "a-", "a--b", "a-b-", "_a-2_b-2_", "a-2-%var", "-a", "0._1", "0b10.1", "0x3.4", "1i", "1 + 2i", "0b", "0o.",
+        "0x.1", "1e1_000_000", "._1", ".", "1__2__.3__4__e+__1__5__", "0xFFFFFFFFFFFFFFFFFFFFFFFFFFFFFFFF", "DEFGATE Name AS PERMUTATION:\n\t1,0\n    0,1",
+        "I 0; RX 1\nCZ 0 1", "\nI 0\n    \n", "\u{feff}X 0", "X\u{a0}0", "0\u{212A}1",
+        // spellings that strum does NOT accept for the renamed variants
+        "MUTABLE", "Mutable", "NON-BLOCKING", "DEF-CAL", "DEF-GATE", "DEF-CIRCUIT", "DEF-FRAME", "DEF-WAVEFORM", "As", "G-E",
+        "PAULISUM", "RAWCAPTURE",
+    ];
+
+    fn bytes_coq(b: &[u8]) -> String {
+        let v: Vec<String> = b.iter().map(|x| x.to_string()).collect();
+        format!("[{}]", v.join(";"))
+    }
+
+    /// Undo Rust's `{:?}` escaping of a `str`.
+    fn undebug(s: &str) -> Option<String> {
+        let inner = s.strip_prefix('"')?.strip_suffix('"')?;
+        let mut out = String::new();
+        let mut it = inner.chars();
+        while let Some(c) = it.next() {
+            if c != '\\' {
+                out.push(c);
+                continue;
+            }
+            match it.next()? {
+                'n' => out.push('\n'),
+                'r' => out.push('\r'),
+                't' => out.push('\t'),
+                '0' => out.push('\0'),
+                '\\' => out.push('\\'),
+                '"' => out.push('"'),
+                '\'' => out.push('\''),
+                'u' => {
+                    if it.next()? != '{' {
+                        return None;
+                    }
+                    let mut hex = String::new();
+                    loop {
+                        let h = it.next()?;
+                        if h == '}' {
+                            break;
+                        }
+                        hex.push(h);
+                    }
+                    out.push(char::from_u32(u32::from_str_radix(&hex, 16).ok()?)?);
+                }
+                _ => return None,
+            }
+        }
+        Some(out)
+    }
+
+    /// one token of the real lexer (its `Debug` rendering) as an `Lex.ltoken` literal
+    fn tok_coq(dbg: &str) -> Option<String> {
+        let simple = match dbg {
+            "BANG" => "LtBang",
+            "COLON" => "LtColon",
+            "COMMA" => "LtComma",
+            "INDENT" => "LtIndent",
+            "LBRACKET" => "LtLBracket",
+            "LPAREN" => "LtLParen",
+            "NEWLINE" => "LtNewLine",
+            "RBRACKET" => "LtRBracket",
+            "RPAREN" => "LtRParen",
+            "SEMICOLON" => "LtSemicolon",
+            _ => "",
+        };
+        if !simple.is_empty() {
+            return Some(simple.to_string());
+        }
+        let inner = |p: &str| dbg.strip_prefix(p).and_then(|s| s.strip_suffix(')'));
+        for (p, c) in [("COMMAND(", "LtCommand"), ("DATATYPE(", "LtDataType"), ("MODIFIER(", "LtModifier"), ("IDENTIFIER(", "LtIdentifier"), ("VARIABLE(", "LtVariable")] {
+            if let Some(x) = inner(p) {
+                return Some(format!("{c} {}", bytes_coq(x.as_bytes())));
+            }
+        }
+        if let Some(x) = inner("COMMENT(") {
+            return undebug(x).map(|s| format!("LtComment {}", bytes_coq(s.as_bytes())));
+        }
+        if let Some(x) = inner("STRING(") {
+            return undebug(x).map(|s| format!("LtString {}", bytes_coq(s.as_bytes())));
+        }
+        if let Some(x) = inner("INTEGER(") {
+            return x.parse::<u64>().ok().map(|v| format!("LtInteger {v}"));
+        }
+        if let Some(x) = inner("FLOAT(") {
+            // `Display` of a finite f64 is its shortest round-tripping decimal: parsing it back is exact
+            return x.parse::<f64>().ok().map(|v| format!("LtFloat (FBits {})", v.to_bits()));
+        }
+        if let Some(x) = inner("OPERATOR(") {
+            return if x.len() == 1 { Some(format!("LtOperator {}", x.as_bytes()[0])) } else { None };
+        }
+        if let Some(x) = dbg.strip_prefix('@') {
+            return Some(format!("LtTarget {}", bytes_coq(x.as_bytes())));
+        }
+        if RESERVED_EXTRA[..9].contains(&dbg) {
+            return Some(format!("LtKeyword {}", bytes_coq(dbg.as_bytes())));
+        }
+        None
+    }
+
+    enum Obs {
+        Toks(Vec<String>),
+        Err,
+        Panic(String),
+    }
+
+    /// mutant 8: what `surrounded` would do if it sliced at the character index of the closing quote
+    fn enumerate_slice_panics(text: &str) -> bool {
+        let Some(start) = text.find('"') else { return false };
+        if text[..start].contains('#') {
+            return false;
+        }
+        let s = &text[start..];
+        let mut esc = false;
+        for (ci, c) in s.chars().enumerate().skip(1) {
+            if c == '\\' {
+                esc = !esc;
+            } else if esc {
+                esc = false;
+            } else if c == '"' {
+                return !(s.is_char_boundary(ci) && s.is_char_boundary(ci + 1));
+            }
+        }
+        false
+    }
+
+    pub fn observe_lex(cx: &mut Ctx, text: &str, class: &str) {
+        if text.len() > 400 {
+            cx.run.count("lexer-bytes:skipped-longer-than-400-bytes");
+            return;
+        }
+        let t = text.to_string();
+        let mut obs = match qv::catch(move || quil_rs::verif::lex_debug(&t)) {
+            Ok(Ok(toks)) => Obs::Toks(toks),
+            Ok(Err(_)) => Obs::Err,
+            Err(msg) => Obs::Panic(msg),
+        };
+        match (cx.mutant, &mut obs) {
+            (6, Obs::Toks(toks)) if text.contains('\t') && !text.contains("    ") => toks.retain(|t| t != "INDENT"),
+            (7, Obs::Toks(toks)) => {
+                let mut k = 0;
+                while k + 1 < toks.len() {
+                    if toks[k].starts_with("COMMENT(") && toks[k + 1] == "NEWLINE" {
+                        toks.remove(k + 1);
+                    }
+                    k += 1;
+                }
+            }
+            (8, Obs::Toks(_)) if enumerate_slice_panics(text) => {
+                obs = Obs::Panic("byte index is not a char boundary (emulated)".into());
+            }
+            _ => {}
+        }
+        let desc = format!("Lex {:?}", text);
+        let (coq_obs, nontrivial, tag) = match &obs {
+            Obs::Toks(toks) => {
+                let v: Option<Vec<String>> = toks.iter().map(|t| tok_coq(t)).collect();
+                match v {
+                    Some(v) => {
+                        for t in toks {
+                            let kind = t.split('(').next().unwrap_or("");
+                            let kind = if kind.starts_with('@') { "TARGET" } else { kind };
+                            cx.run.count(&format!("lexer-token:{kind}"));
+                        }
+                        (format!("(LxToks [{}])", v.join("; ")), !toks.is_empty(), "ok")
+                    }
+                    None => {
+                        cx.run.process_failure(&format!("harness cannot translate the token stream {toks:?}"), &desc, None);
+                        return;
+                    }
+                }
+            }
+            Obs::Err => ("LxErr".to_string(), false, "lex-error"),
+            Obs::Panic(msg) => {
+                cx.panics += 1;
+                if cx.panics <= 5 {
+                    cx.run.note(&format!("lexer panic ({msg}) on {desc}"));
+                }
+                ("LxPanic".to_string(), true, "PANIC")
+            }
+        };
+        cx.run.count(&format!("lexer-bytes:{class}:{tag}"));
+        if !text.is_ascii() {
+            cx.run.count(&format!("lexer-bytes:non-ascii:{tag}"));
+        }
+        cx.run.case(format!("CLex {} {}", bytes_coq(text.as_bytes()), coq_obs), &desc, nontrivial, None);
+    }
+
+    /// all strings of exactly `len` characters over LEX_ALPHA
+    fn exhaustive(len: usize, f: &mut dyn FnMut(String)) {
+        let mut idx = vec![0usize; len];
+        loop {
+            f(idx.iter().map(|&k| LEX_ALPHA[k]).collect());
+            let mut k = len;
+            loop {
+                if k == 0 {
+                    return;
+                }
+                k -= 1;
+                if idx[k] + 1 < LEX_ALPHA.len() {
+                    idx[k] += 1;
+                    for j in k + 1..len {
+                        idx[j] = 0;
+                    }
+                    break;
+                }
+            }
+        }
+    }
+
+    pub fn run(cx: &mut Ctx, seed: u64, thorough: bool, valid_texts: &[String]) -> serde_json::Value {
+        // own random stream: the existing sections keep theirs
+        let mut rng = Rng::new(seed ^ 0x6c65_7865_7221);
+        let before = cx.run.evaluations;
+        // (L5, generated first, shipped interleaved with the short texts so that no shard is made of
+        // long cases only) the generated valid texts, their mutations and multi-byte insertions, as
+        // in sections (2), (3), (3b)
+        let mut long: Vec<(String, &'static str)> = Vec::new();
+        for _ in 0..(if thorough { 2000 } else { 250 }) {
+            long.push((valid_texts[rng.below(valid_texts.len())].clone(), "valid"));
+        }
+        for _ in 0..(if thorough { 6000 } else { 700 }) {
+            let base = &valid_texts[rng.below(valid_texts.len())];
+            let mut t = super::quilgen::mutate(&mut rng, base);
+            if rng.chance(1, 4) {
+                t = super::quilgen::mutate(&mut rng, &t);
+            }
+            long.push((t, "mutated"));
+        }
+        const WIDE: [&str; 8] = ["\u{e9}", "\u{df}", "\u{3bb}", "\u{2014}", "\u{65e5}\u{672c}", "\u{1F642}", "e\u{301}", "\u{2028}"];
+        for _ in 0..(if thorough { 3000 } else { 350 }) {
+            let base = &valid_texts[rng.below(valid_texts.len())];
+            let mut t = base.clone();
+            let bounds: Vec<usize> = t.char_indices().map(|(i, _)| i).chain(std::iter::once(t.len())).collect();
+            let quotes: Vec<usize> = t.char_indices().filter(|(_, c)| *c == '"').map(|(i, _)| i).collect();
+            let pos = if !quotes.is_empty() && rng.chance(2, 3) {
+                let q = quotes[rng.below(quotes.len())];
+                if rng.chance(1, 2) { q + 1 } else { q }
+            } else {
+                bounds[rng.below(bounds.len())]
+            };
+            t.insert_str(pos, WIDE[rng.below(WIDE.len())]);
+            if rng.chance(1, 3) {
+                t.push_str(" # ");
+                t.push_str(WIDE[rng.below(WIDE.len())]);
+            }
+            long.push((t, "multibyte"));
+        }
+        let mut short: Vec<(String, String)> = Vec::new();
+        // (L1) exhaustive short strings
+        short.push((String::new(), "exh-len0".into()));
+        for len in 1..=(if thorough { 4 } else { 3 }) {
+            exhaustive(len, &mut |t| short.push((t, format!("exh-len{len}"))));
+        }
+        let exh = short.len() as u64;
+        // (L2) four-space indentation / reserved words / number forms in every two-piece context
+        for a in PIECES.iter().chain(LEX_ALPHA.iter()) {
+            short.push((a.to_string(), "piece".into()));
+            for b in PIECES.iter().chain(LEX_ALPHA.iter()) {
+                short.push((format!("{a}{b}"), "piece-pair".into()));
+            }
+        }
+        // (L3) every reserved word, alone and perturbed
+        let words: Vec<&str> = super::quilgen::COMMANDS.iter().map(|(n, _)| *n).chain(RESERVED_EXTRA).collect();
+        for w in &words {
+            for t in [w.to_string(), format!("{w}S"), w.to_lowercase(), format!("{w}-X"), format!("{w}-"), format!("_{w}"), format!("@{w}"), format!("%{w}"), format!("{w}\u{e9}")] {
+                short.push((t, "reserved-word".into()));
+            }
+        }
+        // (L4) sampled concatenations of 3..9 pieces
+        for _ in 0..(if thorough { 40000 } else { 5000 }) {
+            let n = rng.range(3, 9);
+            let mut t = String::new();
+            for _ in 0..n {
+                if rng.chance(1, 2) {
+                    t.push_str(PIECES[rng.below(PIECES.len())]);
+                } else {
+                    t.push_str(LEX_ALPHA[rng.below(LEX_ALPHA.len())]);
+                }
+            }
+            short.push((t, "sampled-pieces".into()));
+        }
+        // (L6) corpus
+        for t in CORPUS {
+            short.push((t.to_string(), "corpus".into()));
+        }
+        let every = (short.len() / long.len().max(1)).max(1);
+        let mut li = 0;
+        for (k, (t, class)) in short.iter().enumerate() {
+            observe_lex(cx, t, class);
+            if k % every == 0 && li < long.len() {
+                observe_lex(cx, &long[li].0, long[li].1);
+                li += 1;
+            }
+        }
+        for (t, class) in &long[li..] {
+            observe_lex(cx, t, class);
+        }
+        serde_json::json!({"cases": cx.run.evaluations - before, "exhaustive_short_strings": exh,
+            "alphabet": LEX_ALPHA, "max_len": if thorough { 4 } else { 3 }})
+    }
+}
+// =====================================================================================================
+// END byte-level lexer correspondence
+// =====================================================================================================
+
 fn main() {
     let argv: Vec<String> = std::env::args().collect();
     if argv.len() >= 4 && argv[1] == "--child" {
@@ -279,7 +629,7 @@ fn main() {
         format!("[{}]", v.join("; "))
     };
     let header = format!(
-        "From Coq Require Import List NArith ZArith.\nFrom QV Require Import Model.ParsePanic.\nImport ListNotations.\nOpen Scope N_scope.\n\
+        "From Coq Require Import List NArith ZArith.\nFrom QV Require Import Model.ParsePanic Model.Lex.\nImport ListNotations.\nOpen Scope N_scope.\n\
          Definition alpha_main_check : alpha_main = {} := eq_refl.\nDefinition alpha_expr_check : alpha_expr = {} := eq_refl.",
         alpha_coq(&ALPHA),
         alpha_coq(&EXPR_ALPHA)
@@ -510,6 +860,9 @@ fn main() {
         }
     }
 
+    // (L) byte-level lexer correspondence (own section above, own random stream)
+    let lexer_report = lexsec::run(&mut cx, args.seed, thorough, &valid_texts);
+
     // (4) deep nesting, each in a child process
     let depths: &[usize] = if thorough { &[100, 400, 1000, 10000, 100000, 1000000] } else { &[100, 400, 1000, 10000, 100000] };
     let mut nest_report = serde_json::Map::new();
@@ -550,9 +903,15 @@ fn main() {
          shipped to Coq, all are run); every sequence of length <= 3 (4) over an 18-token expression alphabet \
          at the Expression/MemoryReference/FrameIdentifier entry points; plus sampled longer sequences, \
          grammar-derived valid instructions of all 46 kinds, programs, expressions, and token/byte mutations. \
-         Distinct by (entry, text); non-trivial = the real lexer accepts the text.",
+         Distinct by (entry, text); non-trivial = the real lexer accepts the text. \
+         Byte-level lexer cases (`Lex <text>`): bytes + complete real token stream / lex error / panic, compared \
+         with the byte-level lexer model: exhaustive strings of <= 3 (thorough 4) characters over a 24-character \
+         alphabet (2- and 3-byte characters, quote, backslash, hash, separators, sigils, digits, letters, CR), all \
+         pairs of 82 pieces, every reserved word perturbed, sampled piece concatenations, valid / mutated / \
+         multi-byte texts; non-trivial = at least one token.",
         true,
         serde_json::json!({"exhaustive_cmd_first_texts": exhaustive, "exhaustive_expression_texts": expr_exh,
-            "panics_observed": panics, "nesting": nest_report, "mutant": mutant}),
+            "panics_observed": panics, "nesting": nest_report, "mutant": mutant,
+            "byte_level_lexer": lexer_report}),
     );
 }
